@@ -25,7 +25,9 @@ type c14World struct {
 }
 
 func c14New() *c14World {
-	vkernel.Reset(vkernel.Config{AllowAgain: false, AllowEOF: false, AllowIOErr: false, Batch: 1})
+	// operations may FAIL immediately (reset, refused, EPERM, end of stream): a failure is a completion too
+	// and its callback is on the stack like any other
+	vkernel.Reset(vkernel.Config{AllowAgain: false, AllowEOF: true, AllowIOErr: true, Batch: 1})
 	w := &c14World{ioc: MustIO()}
 	w.epfd = internal.VerifPollerFd(w.ioc.poller)
 	d := vf.Int("d")
@@ -97,7 +99,10 @@ func VerifC14_File() {
 	vf.Assert("depth-accounting-restored", vf.All(w.ioc.Dispatched == w.d, w.depth == w.d))
 	if w.d < MaxCallbackDispatch {
 		vf.Reach("inline")
-		vf.Assert("inline-completes-synchronously", vf.All(calls == 1, gotErr == nil, gotN == 4))
+		vf.Assert("inline-completes-synchronously", vf.All(calls == 1, vf.Any(gotErr != nil, gotN == 4)))
+		if gotErr != nil {
+			vf.Reach("opt:inline-failure")
+		}
 		if w.d+1 < MaxCallbackDispatch {
 			vf.Assert("nested-inline-too", nested == 1)
 		} else {
@@ -121,7 +126,7 @@ func VerifC14_File() {
 	w.under = 0
 	if vkernel.K.Log.LastN == 1 && vkernel.K.Log.LastBatch[0] == fd {
 		vf.Reach("dispatched-by-poller")
-		vf.Assert("deferred-completes-with-the-inline-result", vf.All(n == 1, err == nil, calls == 1, gotErr == nil, gotN == 4))
+		vf.Assert("deferred-completes-with-the-inline-result", vf.All(n == 1, err == nil, calls == 1, vf.Any(gotErr != nil, gotN == 4)))
 		vf.Assert("poller-adds-one-level", w.max <= MaxCallbackDispatch+1)
 	}
 	vf.Assert("depth-zero-after-unwinding", vf.All(w.ioc.Dispatched == 0, w.depth == 0))
@@ -144,7 +149,7 @@ func VerifC14_Accept() {
 	vf.Assert("depth-accounting-restored", vf.All(w.ioc.Dispatched == w.d, w.depth == w.d))
 	if w.d < MaxCallbackDispatch {
 		vf.Reach("inline")
-		vf.Assert("inline-accept", vf.All(calls == 1, gotErr == nil, gotConn != nil))
+		vf.Assert("inline-accept", vf.All(calls == 1, vf.Any(gotErr != nil, gotConn != nil)))
 		return
 	}
 	vf.Reach("at-limit")
@@ -155,7 +160,7 @@ func VerifC14_Accept() {
 	w.under = 0
 	if vkernel.K.Log.LastN == 1 && vkernel.K.Log.LastBatch[0] == lfd {
 		vf.Reach("dispatched-by-poller")
-		vf.Assert("deferred-accept-completes", vf.All(n == 1, err == nil, calls == 1, gotErr == nil, gotConn != nil))
+		vf.Assert("deferred-accept-completes", vf.All(n == 1, err == nil, calls == 1, vf.Any(gotErr != nil, gotConn != nil)))
 	}
 	vf.Assert("depth-zero-after-unwinding", vf.All(w.ioc.Dispatched == 0, w.depth == 0))
 	vf.Reach("end")
@@ -189,7 +194,10 @@ func VerifC14_Packet() {
 	vf.Assert("depth-accounting-restored", vf.All(w.ioc.Dispatched == w.d, w.depth == w.d))
 	if w.d < MaxCallbackDispatch {
 		vf.Reach("inline")
-		vf.Assert("inline-datagram", vf.All(calls == 1, gotErr == nil))
+		vf.Assert("inline-datagram", calls == 1)
+		if gotErr != nil {
+			vf.Reach("opt:inline-failure")
+		}
 		return
 	}
 	vf.Reach("at-limit")
@@ -204,11 +212,87 @@ func VerifC14_Packet() {
 	w.under = 0
 	if vkernel.K.Log.LastN == 1 && vkernel.K.Log.LastBatch[0] == fd {
 		vf.Reach("dispatched-by-poller")
-		vf.Assert("deferred-datagram-completes", vf.All(n == 1, err == nil, calls == 1, gotErr == nil))
-		if !write {
+		vf.Assert("deferred-datagram-completes", vf.All(n == 1, err == nil, calls == 1))
+		if !write && gotErr == nil {
 			vf.Assert("deferred-read-has-the-datagram", gotN >= 1)
 		}
 	}
 	vf.Assert("depth-zero-after-unwinding", vf.All(w.ioc.Dispatched == 0, w.depth == 0))
+	vf.Reach("end")
+}
+
+// VerifC14_Chain composes the step: a real chain of L operations, each started
+// from the completion callback of the previous one, over a rotation of the four
+// copies of the dispatch logic (file read, file write, accept, datagram write; a symbolic-length
+// datagram READ per step would fork on length in the model and is left to the step harness),
+// from an empty stack. L is symbolic up to 2*MaxCallbackDispatch+6 (quick: +2), so
+// the chain crosses the limit at least twice and is resumed by the poller each time.
+func VerifC14_Chain() {
+	// Eager: a poll reports what is ready (the chain has exactly one operation armed at a time)
+	vkernel.Reset(vkernel.Config{Batch: 1, Eager: true})
+	w := &c14World{ioc: MustIO()}
+	w.epfd = internal.VerifPollerFd(w.ioc.poller)
+	extra := vf.Bound("extra", 2, 6)
+	L := vf.Int("L")
+	vf.Assume(vf.All(1 <= L, L <= 2*MaxCallbackDispatch+extra))
+	L = vf.Concretize(L, 80)
+	rot := vf.Choice("rotation", 4)
+	rf := newFile(w.ioc, vkernel.NewStream())
+	wf := newFile(w.ioc, vkernel.NewStream())
+	l := &listener{ioc: w.ioc, slot: internal.Slot{Fd: vkernel.NewListener()}}
+	pc := &packetConn{ioc: w.ioc, slot: internal.Slot{Fd: vkernel.NewDgram()}}
+	vf.Unwind(4 * MaxCallbackDispatch)
+	dbuf := make([]byte, 3)
+	to := &net.UDPAddr{IP: net.IP{10, 0, 0, 1}, Port: 9}
+	done := 0
+	var step func(i int)
+	fin := func(i int, err error) {
+		w.enter()
+		vf.Assert("chain-step-succeeds", err == nil)
+		vf.Assert("chain-steps-complete-in-order", done == i)
+		done++
+		if i+1 < L {
+			step(i + 1)
+		}
+		w.leave()
+	}
+	step = func(i int) {
+		switch (i + rot) % 4 {
+		case 0:
+			rf.AsyncReadAll(make([]byte, 2), func(err error, n int) { fin(i, err) })
+		case 1:
+			wf.AsyncWriteAll(make([]byte, 2), func(err error, n int) { fin(i, err) })
+		case 2:
+			l.AsyncAccept(func(err error, c Conn) {
+				if c != nil {
+					c.Close() // the model's descriptor table is small
+				}
+				fin(i, err)
+			})
+		case 3:
+			pc.AsyncWriteTo(dbuf, to, func(err error) { fin(i, err) })
+		}
+	}
+	step(0)
+	vf.Assert("stack-unwound-after-the-first-call", vf.All(w.depth == 0, w.ioc.Dispatched == 0))
+	if L <= MaxCallbackDispatch {
+		vf.Assert("short-chain-runs-inline", done == L)
+	} else {
+		vf.Assert("long-chain-stops-at-the-limit", done == MaxCallbackDispatch)
+	}
+	polls := 0
+	for done < L && polls < 4 {
+		w.under = 1
+		_, err := w.ioc.PollOne()
+		w.under = 0
+		polls++
+		vf.Assert("poll-ok", err == nil)
+		vf.Assert("stack-unwound-after-poll", vf.All(w.depth == 0, w.ioc.Dispatched == 0))
+	}
+	vf.Assert("whole-chain-ran", done == L)
+	vf.Assert("max-depth-is-limit-plus-poller", w.max <= MaxCallbackDispatch+1)
+	if L > MaxCallbackDispatch {
+		vf.Reach("crossed-limit")
+	}
 	vf.Reach("end")
 }
